@@ -359,6 +359,11 @@ func genCorpus(seed uint64, size int) *proto.Corpus {
 	// length 256 / 512 / 1024 / 4096 bytes, 32 / 64 / 128 list entries, nesting depth 40)
 	g.sizeFamilies()
 
+	// cross-function families: the SAME list through ValidateLicenses and through
+	// Satisfies (and its elements through ExtractLicenses), including lists that one
+	// function accepts and the other rejects (expression entries)
+	g.crossFamilies()
+
 	// systematic spelling families: every way of writing one identifier (letter case of
 	// the id and of its -only / -or-later suffix, '+', WITH), through every function and
 	// in both argument positions. These are the inputs a sloppily keyed cache confuses.
@@ -745,5 +750,29 @@ func (g *corpusGen) sizeFamilies() {
 		g.add(proto.Call{Fn: proto.FnSatisfies, Expr: ids[n-1] + " AND " + ids[0], List: ids, Fam: g.fam, Tag: "size"})
 		g.add(proto.Call{Fn: proto.FnSatisfies, Expr: ids[1], List: l, Fam: g.fam, Tag: "size"})
 		_ = r
+	}
+}
+
+func (g *corpusGen) crossFamilies() {
+	a, b := g.plainID(), g.plainID()
+	lists := [][]string{
+		{"MIT AND ISC"}, {"MIT", "MIT AND ISC"}, {"MIT AND ISC", "MIT"}, {"MIT OR Apache-2.0", "ISC"}, {"(MIT)", "ISC"}, {"ISC", "(MIT AND ISC)"},
+		{"GPL-2.0+", "MIT"}, {"GPL-2.0-or-later", "MIT"}, {"GPL-2.0", "GPL-2.0+"}, {"MIT WITH Classpath-exception-2.0", "MIT"}, {"GPL-2.0-only WITH Classpath-exception-2.0"},
+		{" MIT ", "ISC"}, {"MIT", "mit"}, {"LicenseRef-a", "MIT"}, {"DocumentRef-d:LicenseRef-a"}, {"NOPE-1.0", "MIT"}, {"MIT", "NOPE-1.0"},
+		{a, b}, {a + " AND " + b}, {a + " OR " + b, a}, {a, a}, {a + "+", b}, {"MIT", ""}, {"(", "MIT"},
+	}
+	exprs := []string{"MIT", "ISC", "MIT AND ISC", "MIT OR ISC", "GPL-2.0", "GPL-3.0-only", a, a + " AND " + b, a + " OR " + b}
+	for _, l := range lists {
+		g.fam++
+		g.add(proto.Call{Fn: proto.FnValidate, List: l, Fam: g.fam, Tag: "cross"})
+		for _, e := range exprs {
+			g.add(proto.Call{Fn: proto.FnSatisfies, Expr: e, List: l, Fam: g.fam, Tag: "cross"})
+		}
+		for _, x := range l {
+			g.add(proto.Call{Fn: proto.FnExtract, Expr: x, Fam: g.fam, Tag: "cross"})
+			g.add(proto.Call{Fn: proto.FnSatisfies, Expr: x, List: l, Fam: g.fam, Tag: "cross"})
+			g.add(proto.Call{Fn: proto.FnSatisfies, Expr: x, List: []string{"MIT", "ISC", a, b}, Fam: g.fam, Tag: "cross"})
+			g.add(proto.Call{Fn: proto.FnValidate, List: []string{x}, Fam: g.fam, Tag: "cross"})
+		}
 	}
 }
